@@ -38,7 +38,14 @@ var verifDir = func() string {
 	return "/verif"
 }()
 
-const repoDir = "/repo"
+// repoDir is the tree under verification: /repo, or $VERIF_REPO_DIR (used only for background
+// sweeps that must not see edits made to /repo while they run).
+var repoDir = func() string {
+	if d := os.Getenv("VERIF_REPO_DIR"); d != "" {
+		return d
+	}
+	return "/repo"
+}()
 
 func usage() {
 	fmt.Fprintln(os.Stderr, "usage: vcheck run <id> [--tier quick|thorough]\n       vcheck replay <path-to-case.json-or-dir>\n       vcheck list")
